@@ -466,6 +466,14 @@ package cl
 //@   ensures from-end-position: (fromEnd && result0 != nil && 0 <= start1 && start1 < 1000000000 && 1 <= i && i <= len(seq1)) ==> as(result0, slip.Fixnum) == len(seq1) - i + 1 + start1
 //@   ensures from-start-position: (!fromEnd && result0 != nil && 0 <= start1 && start1 < 1000000000 && i < len(seq1)) ==> as(result0, slip.Fixnum) == i + start1
 
+// merge is stable: the head of sequence-2 goes first only when the predicate
+// says it strictly precedes the head of sequence-1, so the predicate is asked
+// (key2, key1); equal keys keep sequence-1's element in front.
+//@ func cl.(*Merge).Call
+//@   property C14
+//@   on-call Call#3 asks-whether-the-second-precedes: len($arg1) == 2 && $arg1[0] == k2 && $arg1[1] == k1
+//@   on-call sortLess asks-whether-the-second-precedes: $arg0 == k2 && $arg1 == k1
+
 // assoc / rassoc / member / adjoin: the two-argument test receives the item
 // first and the (keyed) element second.
 //@ func cl.(*Assoc).Call
